@@ -489,14 +489,13 @@ class DBusObject :
         argument
         """
         try:
-            args = inspect.getfullargspec(method_obj)[0]
-        except:
-            args = inspect.getargspec(method_obj)[0]
-
-        needs_caller = False
-
-        if len(args) >= 1 and args[-1] == 'dbusCaller':
-            needs_caller = True
+            # signature() looks through decorators that keep __wrapped__
+            # (inlineCallbacks, functools.wraps) and knows keyword-only
+            # parameters
+            needs_caller = 'dbusCaller' in inspect.signature(
+                method_obj).parameters
+        except (TypeError, ValueError):
+            needs_caller = False
 
         method_obj.__func__._dbusCaller = needs_caller
 
